@@ -90,6 +90,15 @@ type c06Model struct {
 	// API of the running server, so its only replica / leader is that server.
 	apiStream, local string
 	lastKind         string
+	// "redundant" units only (c06_redundant_test.go): real is the server that
+	// has applied every operation generated so far; before each draw the model's
+	// partition and group state is re-read from it, and redundantPct percent of
+	// the draws are operations that are redundant / no-ops / ill-timed in the
+	// state reached but that the REAL precondition function still lets through.
+	real         *Server
+	redundantPct int
+	redStats     func(kind string, accepted bool)
+	follow       *c06Follow // the ordinary inverse of the last accepted redundant operation, still to be drawn
 }
 
 func newC06Model() *c06Model {
@@ -103,7 +112,10 @@ type c06Op struct {
 	Desc   string
 	Stream string
 	Group  string
-	data   []byte // marshalled proto.RaftLog, unmarshalled afresh for every apply (as Server.Apply does)
+	// Redundant: drawn by genRedundant (accepted by the real precondition
+	// function although it is a no-op / repeated / ill-timed in the state reached)
+	Redundant bool
+	data      []byte // marshalled proto.RaftLog, unmarshalled afresh for every apply (as Server.Apply does)
 }
 
 func c06MkOp(kind string, index uint64, desc string, l *proto.RaftLog) *c06Op {
@@ -211,6 +223,19 @@ func c06Configs(rng *kit.RNG) *proto.StreamConfig {
 // metadata API checks before proposing — hold in the model) and applies it to
 // the model.
 func (m *c06Model) gen(rng *kit.RNG, index uint64) *c06Op {
+	if m.real != nil {
+		m.syncFromReal()
+		if op := m.genFollowUp(rng, index); op != nil {
+			m.lastKind = op.Kind
+			return op
+		}
+		if rng.Intn(100) < m.redundantPct {
+			if op := m.genRedundant(rng, index); op != nil {
+				m.lastKind = op.Kind
+				return op
+			}
+		}
+	}
 	op := m.gen0(rng, index)
 	m.lastKind = op.Kind
 	return op
@@ -1382,12 +1407,20 @@ func c06DirectedFreeRunning(rep *kit.Report) {
 	}
 }
 
-func c06RunHistory(rep *kit.Report, id int, seed uint64) {
+func c06RunHistory(rep *kit.Report, id int, seed uint64) { c06RunHistoryMode(rep, id, seed, 0) }
+
+// c06RunHistoryMode: redundantPct > 0 = the "redundant" unit (longer histories,
+// that share of the operations drawn by genRedundant against server A).
+func c06RunHistoryMode(rep *kit.Report, id int, seed uint64, redundantPct int) {
 	rng := kit.NewRNG(seed)
 	h := &c06Hist{rep: rep, id: id, seed: seed}
 	model := newC06Model()
 	n := rng.Range(3, 12)
 	cont := rng.Range(0, 3)
+	if redundantPct > 0 {
+		n = rng.Range(5, 12)
+		cont = rng.Range(1, 4)
+	}
 
 	dirA, dirB, dirC := c06TempDir("a"), c06TempDir("b"), c06TempDir("c")
 	A, B, C := c06NewServer(dirA), c06NewServer(dirB), c06NewServer(dirC)
@@ -1405,6 +1438,16 @@ func c06RunHistory(rep *kit.Report, id int, seed uint64) {
 			f()
 		}
 	}()
+	if redundantPct > 0 {
+		model.real, model.redundantPct = A, redundantPct
+		model.redStats = func(kind string, accepted bool) {
+			if accepted {
+				rep.Count("redundant_accepted_by_real_precondition_"+kind, 1)
+			} else {
+				rep.Count("redundant_refused_by_real_precondition_"+kind, 1)
+			}
+		}
+	}
 	gateC := c06NewGate(C)
 	defer gateC.drop(C)
 	expectC := 0
@@ -1451,6 +1494,13 @@ func c06RunHistory(rep *kit.Report, id int, seed uint64) {
 		markers += c06AppendMarkers(A, model, rng, id, i)
 		dA, dB := c06DigestOf(A), c06DigestOf(B)
 		rep.Count("twin_steps_compared", 1)
+		if diffs := c06SelfCheck(dA); len(diffs) > 0 && !h.failed {
+			for _, d := range diffs {
+				h.violation("C06:self:"+d.Class, fmt.Sprintf("after %s the server's live state and the state it would persist in a snapshot disagree: %s", op.Desc, d.Detail),
+					map[string]interface{}{"after_op": i + 1, "server": dA.String()})
+			}
+			// not fatal for the history: the differential oracles below show the consequences
+		}
 		if diffs := c06Compare(dA, dB); len(diffs) > 0 {
 			for _, d := range diffs {
 				h.violation("C06:determinism:"+d.Class, fmt.Sprintf("two servers applying the same history differ after %s: %s", op.Desc, d.Detail),
@@ -1640,7 +1690,11 @@ func c06RunHistory(rep *kit.Report, id int, seed uint64) {
 	for _, s := range shape {
 		rep.Count("shape_"+s, 1)
 	}
-	if len(shape) > 0 && markers > 0 {
+	hasRedundant := false
+	for _, s := range shape {
+		hasRedundant = hasRedundant || s == "redundant-op"
+	}
+	if len(shape) > 0 && markers > 0 && (redundantPct == 0 || hasRedundant) {
 		rep.Nontrivial(h.text(n))
 	}
 	if id < 3 {
@@ -1654,7 +1708,15 @@ func c06Shape(ops []*c06Op) []string {
 	deleted := map[string]bool{}
 	paused := map[string]bool{}
 	anyDelete := false
-	for _, o := range ops {
+	for i, o := range ops {
+		if o.Redundant {
+			set["redundant-op"] = true
+			for _, later := range ops[i+1:] {
+				if later.Stream != "" && later.Stream == o.Stream && !later.Redundant {
+					set["redundant-op-then-ordinary-op-on-same-stream"] = true
+				}
+			}
+		}
 		switch o.Kind {
 		case "delete":
 			deleted[o.Stream] = true
@@ -1685,6 +1747,7 @@ func c06Shape(ops []*c06Op) []string {
 
 func c06CloneModel(m *c06Model) *c06Model {
 	c := newC06Model()
+	c.real, c.redundantPct, c.redStats = m.real, m.redundantPct, m.redStats
 	for k, v := range m.incs {
 		c.incs[k] = v
 	}
@@ -2017,7 +2080,12 @@ func c06L2Settle(s *Server, m *c06Model) error {
 	return nil
 }
 
-func c06RunL2(rep *kit.Report, id int, seed uint64) {
+func c06RunL2(rep *kit.Report, id int, seed uint64) { c06RunL2Mode(rep, id, seed, 0) }
+
+// c06RunL2Mode: redundantPct > 0 = the "redundant-restart" unit (that share of
+// the operations drawn by genRedundant; whether such an operation is accepted
+// is decided by the running server's metadata API).
+func c06RunL2Mode(rep *kit.Report, id int, seed uint64, redundantPct int) {
 	rng := kit.NewRNG(seed)
 	h := &c06Hist{rep: rep, id: id, seed: seed}
 	model := newC06Model()
@@ -2033,6 +2101,16 @@ func c06RunL2(rep *kit.Report, id int, seed uint64) {
 	}
 	defer c.Cleanup()
 	nops := rng.Range(8, 16)
+	redundantDone := 0
+	if redundantPct > 0 {
+		nops = rng.Range(10, 18)
+		model.real, model.redundantPct = s, redundantPct
+		model.redStats = func(kind string, accepted bool) {
+			if !accepted {
+				rep.Count("redundant_refused_by_real_precondition_"+kind, 1)
+			}
+		}
+	}
 	lastSnap := 0
 	restarts := 0
 	overlappedSnaps := 0
@@ -2087,6 +2165,10 @@ func c06RunL2(rep *kit.Report, id int, seed uint64) {
 			return false
 		}
 		before := c06DigestOf(s)
+		for _, d := range c06SelfCheck(before) {
+			h.violation("C06:restart:self:"+d.Class, fmt.Sprintf("before the stop after %d ops the server's live state and the state it would persist in a snapshot disagree: %s", at, d.Detail),
+				map[string]interface{}{"events": strings.Join(events, " "), "before_stop": before.String()})
+		}
 		if err := c.StopNode("a"); err != nil {
 			rep.Inconc(fmt.Sprintf("scenario %d: stop failed: %v", id, err))
 			return false
@@ -2102,6 +2184,9 @@ func c06RunL2(rep *kit.Report, id int, seed uint64) {
 			return false
 		}
 		s = c.Nodes["a"].Srv
+		if model.real != nil {
+			model.real = s
+		}
 		if _, err := c.MetaLeader(30 * time.Second); err != nil {
 			rep.Inconc(fmt.Sprintf("scenario %d: no leader after restart: %v", id, err))
 			return false
@@ -2166,8 +2251,20 @@ func c06RunL2(rep *kit.Report, id int, seed uint64) {
 			finishSnap()
 		}
 		if err := c06L2Exec(s, model, op); err != nil {
+			if op.Redundant {
+				// the metadata API is the judge of whether a redundant operation is let through
+				rep.Count("redundant_refused_by_metadata_api_"+op.Kind, 1)
+				h.ops = h.ops[:len(h.ops)-1]
+				events = events[:len(events)-1]
+				finishSnap()
+				continue
+			}
 			rep.Inconc(fmt.Sprintf("scenario %d: %s was not accepted by the running server: %v", id, op.Desc, err))
 			return
+		}
+		if op.Redundant {
+			redundantDone++
+			rep.Count("redundant_accepted_by_metadata_api_"+op.Kind, 1)
 		}
 		finishSnap()
 		if op.Kind == "delete" || op.Kind == "create" || op.Kind == "resume" {
@@ -2182,7 +2279,7 @@ func c06RunL2(rep *kit.Report, id int, seed uint64) {
 		rep.Count("ops_applied", 1)
 		if rng.Chance(1, 4) {
 			pendingSnap = s.getRaft().Snapshot()
-			lastSnap = i + 1
+			lastSnap = len(h.ops) // == i+1 unless a refused redundant operation was dropped
 			events = append(events, "[SNAPSHOT]")
 			if rng.Bool() {
 				finishSnap()
@@ -2192,14 +2289,14 @@ func c06RunL2(rep *kit.Report, id int, seed uint64) {
 			}
 		}
 		if (rng.Chance(1, 6) && restarts < 3 && i > 1) || (i == nops-1 && restarts == 0) {
-			if !restart(i + 1) {
+			if !restart(len(h.ops)) {
 				return
 			}
 		}
 	}
 	rep.Eval()
 	rep.Count("markers_published", int64(published))
-	if interesting && restarts > 0 {
+	if interesting && restarts > 0 && (redundantPct == 0 || redundantDone > 0) {
 		rep.Nontrivial(strings.Join(events, " "))
 	}
 	if id < 2 {
